@@ -454,15 +454,108 @@ def gen_ctor(rng, cls, latlon, temporal, drv, ci):
             given[i] = opts[i]
     margs = dict(iargs=[dim, 1 if use_spatial else 0, dim, int(latlon), int(temporal), int(raw), 0 if resc is None else 1, 1],
                  fargs=[var, nug, 0.0 if resc is None else resc], len=ls, anis=an, angles=ang, opts=opts)
+    if cls in CLOSED_INT and rng.random() < 0.25:
+        # integral_scale= in the constructor (modelled for the closed-form classes: construct_int)
+        ni = 1 if rng.random() < 0.5 else int(rng.integers(1, eff + 2))
+        isc = gen_list(rng, pos(rng), ni, False)
+        kw["integral_scale"] = isc[0] if (ni == 1 and rng.random() < 0.7) else isc
+        margs["int"] = isc
     return kw, given, margs, eff
 
 
 def model_construct(drv, ci, margs, bm=None):
     bm = np.zeros((0, 4)) if bm is None else bm
+    extra = [np.array(margs["int"], dtype=float)] if margs.get("int") else []
     r = drv.call("construct", ("n", ci), np.array(margs["iargs"], dtype=np.int64), np.array(margs["fargs"], dtype=float),
                  np.array(margs["len"], dtype=float), np.array(margs["anis"], dtype=float),
-                 np.array(margs["angles"], dtype=float), np.array(margs["opts"], dtype=float), bm_in(bm))
+                 np.array(margs["angles"], dtype=float), np.array(margs["opts"], dtype=float), bm_in(bm), *extra)
     return res_state(r)
+
+
+# --------------------------------------------------------------------------- documented normalisation rules (no gstools code)
+
+def doc_anis_from_list(dim, ls, latlon):
+    """[l1, l2] in 3D == [l1, l2, l2]: the LAST given length scale is reused; ratios l_i / l_1"""
+    ls = np.array(ls, dtype=float).ravel()[:dim]
+    if len(ls) < 2:
+        return None
+    padded = np.concatenate([ls, np.full(dim - len(ls), ls[-1])])
+    a = padded[1:] / padded[0]
+    if latlon:
+        a[:2] = 1.0
+    return a
+
+
+def doc_anis(dim, an, latlon):
+    """too few ratios: filled up with 1 at the FRONT (anis=[e] in 3D == [1, e]); lat-lon: space isotropic"""
+    a = np.array(an, dtype=float).ravel()[:max(dim - 1, 0)]
+    a = np.concatenate([np.ones(dim - 1 - len(a)), a])
+    if latlon:
+        a[:2] = 1.0
+    return a
+
+
+def doc_angles(dim, ang, latlon, temporal):
+    """too few angles: filled up with 0; lat-lon: no rotation; temporal: no rotation between space and time"""
+    if latlon:
+        return np.zeros(noa(dim))
+    a = np.array(ang, dtype=float).ravel()[:noa(dim)]
+    a = np.concatenate([a, np.zeros(noa(dim) - len(a))])
+    if temporal:
+        a[noa(dim - 1):] = 0.0
+    return a
+
+
+_POS = {}
+
+
+def _positions(dim, latlon, temporal):
+    key = (dim, latlon, temporal)
+    if key not in _POS:
+        rs = np.random.RandomState(4711 + 10 * dim + 2 * int(latlon) + int(temporal))
+        full = rs.normal(size=(dim, 5)) * 3.0
+        if latlon:
+            field = np.vstack([rs.uniform(-80, 80, 5), rs.uniform(-170, 170, 5)] + ([rs.uniform(0, 5, 5)] if temporal else []))
+        else:
+            field = full
+        _POS[key] = (full, field, np.array([0.0, 0.3, 1.0, 2.5, 7.0]))
+    return _POS[key]
+
+
+def behave(m):
+    """results of the model's methods that depend on the parameters: must be functions of the PRESENT parameter
+    values only (a model reached by a history behaves like a freshly constructed one)"""
+    dim, ll, tt = int(m.dim), bool(m.latlon), bool(m.temporal)
+    full, field, r = _positions(dim, ll, tt)
+    out = {}
+
+    def call(name, fn):
+        try:
+            out[name] = np.asarray(fn(), dtype=float)
+        except Exception as e:                                  # compared as well: both objects must do the same
+            out[name] = "exception:" + type(e).__name__
+    call("isometrize", lambda: m.isometrize(field))
+    call("anisometrize", lambda: m.anisometrize(full))
+    call("vario_spatial", lambda: m.vario_spatial(full))
+    call("main_axes", lambda: m.main_axes())
+    call("variogram", lambda: m.variogram(r))
+    if ll:
+        call("vario_yadrenko", lambda: m.vario_yadrenko(r / 10.0))
+    elif dim > 1:
+        call("vario_axis", lambda: m.vario_axis(r, axis=dim - 1))
+    return out
+
+
+def behaviour_diff(a, b):
+    bad = []
+    for k in a:
+        x, y = a[k], b.get(k)
+        if isinstance(x, str) or isinstance(y, str):
+            if not (isinstance(x, str) and isinstance(y, str) and x == y):
+                bad.append(k)
+        elif x.shape != y.shape or not C.bit_equal(x, y):
+            bad.append(k)
+    return bad
 
 
 # --------------------------------------------------------------------------- fresh construction (canonical form)
@@ -528,7 +621,10 @@ class History:
         except (ZeroDivisionError, FloatingPointError, OverflowError):
             self.ctx.count(None, hist=dict(outcome="arith-exception (history ends, not compared)"))
             return False
-        self.ctor_doc_check(kw, ierr)
+        if "integral_scale" not in kw:
+            self.ctor_doc_check(kw, ierr)
+        else:
+            self.loose_len = True
         st, val = model_construct(self.drv, self.ci, margs)
         if ierr is not None:
             if st != "err" or not self.same_err(ierr, val, kw.get("len_low", 0.0) < 0):
@@ -540,10 +636,53 @@ class History:
         self.ms = val
         self.optn = list(self.m.arg_bounds)[4:]
         self.names = list(self.m.arg_bounds)
+        behave(self.m)
         self.o = obs_impl(self.m, self.cls)
         self.compare("construct")
         self.shape_probe("construct")
+        isc, lsk = kw.get("integral_scale"), kw.get("len_scale", 1.0)
+        as_list = lambda x: list(x) if isinstance(x, (list, tuple, np.ndarray)) else [x]
+        src = isc if (isc is not None and doc_anis_from_list(self.o["dim"], as_list(isc), self.latlon) is not None) else lsk
+        self.doc_probe("constructor", src, kw.get("anis", 1.0), kw.get("angles", 0.0), len_is_main=isc is None)
+        if "var" in kw:
+            self.var_roundtrip("constructor", kw["var"])
         return True
+
+    def doc_probe(self, route, ls, an, ang, len_is_main=True):
+        """documented normalisation of list arguments, computed without gstools code"""
+        o = self.o
+        d = o["dim"]
+        exp = {}
+        if ls is not None:
+            lsl = list(ls) if isinstance(ls, (list, tuple, np.ndarray)) else [ls]
+            a = doc_anis_from_list(d, lsl, o["latlon"])
+            if a is not None:
+                exp["anis"] = a                                 # a list of length scales redefines the ratios
+            elif an is not None:
+                exp["anis"] = doc_anis(d, an if isinstance(an, (list, tuple, np.ndarray)) else [an], o["latlon"])
+            if len_is_main and lsl:
+                exp["len_scale"] = float(lsl[0])
+        elif an is not None:
+            exp["anis"] = doc_anis(d, an if isinstance(an, (list, tuple, np.ndarray)) else [an], o["latlon"])
+        if ang is not None:
+            exp["angles"] = doc_angles(d, ang if isinstance(ang, (list, tuple, np.ndarray)) else [ang], o["latlon"], o["temporal"])
+        bad = [f for f, v in exp.items() if not same_val(o[f], v, True)]
+        if bad:
+            self.viol("probe: documented normalisation of list arguments (%s)" % route,
+                      "%s (%s, dim %d): %s; documented rule gives %s, the object has %s" % (
+                          self.cls, self.kind, d, dict(len_scale_or_integral_scale=ls, anis=an, angles=ang),
+                          {f: np.asarray(exp[f]).tolist() for f in bad}, {f: np.asarray(o[f]).tolist() for f in bad}),
+                      "doc-normalisation:%s:%s" % (",".join(sorted(bad)), route))
+
+    def var_roundtrip(self, route, v):
+        o = self.o
+        f = o["var_factor"]
+        if not (math.isfinite(f) and f > 0 and math.isfinite(v)):
+            return
+        if not C.close(o["var"], v, rtol=1e-12):
+            self.viol("probe: variance getter after assigning var (%s)" % route,
+                      "%s (%s): var = %r was given, the model reports var = %r (var_raw %r, var_factor %r)" % (
+                          self.cls, self.kind, v, o["var"], o["var_raw"], f), "var-roundtrip:%s" % route)
 
     def ctor_doc_check(self, kw, ierr):
         """constructor arguments against the documented (class default) intervals, independent of the model"""
@@ -711,11 +850,22 @@ class History:
             self.loose_len = True
         if k in ("set_arg_bounds", "bounds_prop"):
             self.bounds_ops = True
+        behave(self.m)                                          # may fill caches: later results must still be fresh
         self.o = obs_impl(self.m, self.cls)
         if self.o["dim"] != before["dim"]:
             self.dim_changed = True
         at = "step %d %s" % (len(self.ops_done), k)
         self.compare(at)
+        if k == "len_scale":
+            self.doc_probe("len_scale setter", op["v"], None, None)
+        elif k == "integral_scale":
+            self.doc_probe("integral_scale setter", op["v"], None, None, len_is_main=False)
+        elif k == "anis":
+            self.doc_probe("anis setter", None, op["v"], None)
+        elif k == "angles":
+            self.doc_probe("angles setter", None, None, op["v"])
+        elif k == "var":
+            self.var_roundtrip("setter", op["v"])
         # frame
         ffa = frame_fields(self.o)
         may = touched(op, before, self.optn)
@@ -789,6 +939,11 @@ class History:
         eq = bool(self.m == f) and bool(f == self.m)
         self.ctx.count((self.cls, self.kind, "fresh", "var" if use_var else "var_raw", is_default),
                        hist=dict(fresh="compared (%s bounds)" % ("default" if is_default else "assigned")))
+        bdiff = behaviour_diff(behave(self.m), behave(f))
+        if bdiff and not diff:
+            self.viol("probe: behaviour of the final object vs a directly constructed object",
+                      "%s (%s): all parameters equal, but %s differ (stale derived state)" % (self.cls, self.kind, bdiff),
+                      "behaviour-differs:%s" % ",".join(sorted(bdiff)), dict(fresh_kwargs=kw))
         if diff or not eq:
             self.viol("probe: final object vs directly constructed object",
                       "%s (%s): history and direct construction differ in %s (== gives %s)" % (self.cls, self.kind, diff, eq),
@@ -874,6 +1029,250 @@ def witness_probes(ctx, drv):
                               cls, d0, d1, m.nu, m.opt_arg_bounds, cls, d1, m.nu, e),
                           dict(cls=cls, kind="plain", ctor=dict(dim=d0), ops=[dict(k="dim", v=d1)]), key=KEY_STALE)
     return []
+
+
+# --------------------------------------------------------------------------- constructor == assignment history == rebuilt (implementation only)
+
+QUAD_OK = [c for c in CLASSES if c != "JBessel"]       # JBessel: quad of the oscillating correlation, setter refuses
+
+
+def _inside_value(rng, b):
+    lo, hi = float(b[0]), float(b[1])
+    if math.isfinite(lo) and math.isfinite(hi):
+        return float(lo + (hi - lo) * rng.uniform(0.1, 0.9))
+    if math.isfinite(lo):
+        return float(lo + np.exp(rng.normal(0, 0.7)))
+    return float(rng.normal(0, 1))
+
+
+def gen_cvs(rng, cls, kind, ll, tt):
+    """a constructor call with valid values for a random subset of the arguments, and an order in which the same
+    values are assigned to a default-constructed model.  The order respects what the constructor itself does:
+    ratios before a list of length scales (the list wins), rescale and optional arguments before integral_scale
+    (it is computed from them), and on the truncated-power-law classes var after everything var_factor depends on."""
+    Cls = getattr(gs(), cls)
+    base = dict(latlon=ll, temporal=tt)
+    if not ll:
+        base["dim"] = int(rng.integers(1, 5))
+    ref = Cls(**base)
+    eff = int(ref.dim)
+    names = list(ref.arg_bounds)
+    vals = {}
+    vals["var_raw" if rng.random() < 0.3 else "var"] = pos(rng)
+
+    def scale_list():
+        form = rng.choice(["scalar", "one", "short", "full", "long"])
+        n = {"scalar": 1, "one": 1, "short": int(rng.integers(2, max(eff, 3))), "full": eff, "long": eff + 1}[str(form)]
+        v = [pos(rng) for _ in range(max(n, 1))]
+        return v[0] if form == "scalar" else v
+    r = rng.random()
+    if r < 0.45:
+        vals["len_scale"] = scale_list()
+    elif r < 0.8 and cls in QUAD_OK:
+        vals["integral_scale"] = scale_list()
+    if rng.random() < 0.6:
+        n = int(rng.integers(0, eff + 1))
+        vals["anis"] = pos(rng) if rng.random() < 0.3 else [pos(rng) for _ in range(n)]
+    if rng.random() < 0.6:
+        n = int(rng.integers(0, noa(eff) + 2))
+        vals["angles"] = float(rng.uniform(-3, 3)) if rng.random() < 0.3 else [float(rng.uniform(-3, 3)) for _ in range(n)]
+    if rng.random() < 0.5:
+        vals["nugget"] = pos(rng) * 0.3
+    if rng.random() < 0.4:
+        vals["rescale"] = pos(rng)
+    for n in names[4:]:
+        if rng.random() < 0.5:
+            vals[n] = _inside_value(rng, norm_bnd(ref.arg_bounds[n]))
+    keys = list(vals)
+    scale = "len_scale" if "len_scale" in vals else ("integral_scale" if "integral_scale" in vals else None)
+    before = []                                                  # (a, b): a must be assigned before b
+    if scale and "anis" in vals:
+        before.append(("anis", scale))
+    if "integral_scale" in vals:
+        before += [(n, "integral_scale") for n in keys if n == "rescale" or n in names[4:]]
+    if cls in TPL and "var" in vals:
+        before += [(n, "var") for n in keys if n in ("rescale", "len_scale", "integral_scale") or n in names[4:]]
+    for _ in range(200):
+        order = [keys[i] for i in rng.permutation(len(keys))]
+        if all(order.index(a) < order.index(b) for a, b in before):
+            break
+    else:
+        order = sorted(keys, key=lambda n: (n == "var", n in ("len_scale", "integral_scale"), n == "anis"))
+        order = [n for n in keys if n not in ("anis", "len_scale", "integral_scale", "var")] + \
+                [n for n in ("anis", "len_scale", "integral_scale", "var") if n in keys]
+    return dict(probe="ctor-vs-setters", cls=cls, kind=kind, base=base, vals=vals, order=order)
+
+
+def run_cvs(ctx, cfg):
+    cls, kind = cfg["cls"], cfg["kind"]
+    Cls = getattr(gs(), cls)
+    base, vals, order = cfg["base"], cfg["vals"], cfg["order"]
+    cp = lambda v: list(v) if isinstance(v, list) else v
+    ctx.count((cls, kind, "ctor-vs-setters", tuple(sorted(k if k in ("var", "var_raw", "len_scale", "integral_scale", "anis", "angles", "nugget", "rescale") else "opt" for k in vals))),
+              hist=dict(op="ctor-vs-setters"))
+
+    def attempt(fn):
+        try:
+            return fn(), None
+        except (ValueError, IndexError) as e:
+            return None, "%s: %s" % (type(e).__name__, e)
+        except (ZeroDivisionError, FloatingPointError, OverflowError) as e:
+            return None, "arith"
+    A, ea = attempt(lambda: Cls(**base, **{k: cp(v) for k, v in vals.items()}))
+
+    def by_setters():
+        B = Cls(**base)
+        for n in order:
+            setattr(B, n, cp(vals[n]))
+            behave(B)
+        return B
+    B, eb = attempt(by_setters)
+    if ea == "arith" or eb == "arith" or (ea and eb):
+        ctx.count(None, hist=dict(outcome="ctor-vs-setters: both raise (%s) - not compared" % str(ea)[:60]))
+        return
+    case = json.loads(json.dumps(cfg))
+    if ea or eb:
+        ctx.violation("probe: constructor vs assignment history",
+                      "%s (%s): %s(**%s) %s but assigning the same valid values in the order %s %s" % (
+                          cls, kind, cls, dict(base, **vals), "raises " + ea if ea else "succeeds", order,
+                          "raises " + eb if eb else "succeeds"), case, key="ctor-vs-setters:one-raises")
+        return
+    oa, ob = obs_impl(A, cls), obs_impl(B, cls)
+    if "var" in vals and math.isfinite(oa["var_factor"]) and oa["var_factor"] > 0 and not C.close(oa["var"], vals["var"], rtol=1e-12):
+        ctx.violation("probe: variance getter after constructing with var=",
+                      "%s (%s): %s(**%s).var = %r, expected %r" % (cls, kind, cls, dict(base, **vals), oa["var"], vals["var"]),
+                      case, key="var-roundtrip:constructor")
+    diff = [k for k in oa if not same_val(oa[k], ob[k], True)]
+    bdiff = behaviour_diff(behave(A), behave(B))
+    if diff or bdiff or not (A == B and B == A):
+        ctx.violation("probe: constructor vs assignment history",
+                      "%s (%s): %s(**%s) differs from the model reached by assigning the same values in the order %s: %s%s" % (
+                          cls, kind, cls, dict(base, **vals), order,
+                          {k: (np.asarray(oa[k]).tolist(), np.asarray(ob[k]).tolist()) for k in diff[:6]},
+                          " behaviour: %s" % bdiff if bdiff else ""), case,
+                      key="ctor-vs-setters:%s" % ",".join(sorted(diff) or sorted(bdiff) or ["=="]))
+    # third leg: rebuilt from the reported parameters
+    names = list(A.arg_bounds)
+    kw3 = dict(base, var_raw=oa["var_raw"], len_scale=oa["len_scale"], anis=[float(x) for x in oa["anis"]],
+               angles=[float(x) for x in oa["angles"]], nugget=oa["nugget"], rescale=oa["rescale"])
+    for i, n in enumerate(names[4:]):
+        kw3[n] = float(oa["opts"][i])
+    Cm, ec = attempt(lambda: Cls(**kw3))
+    if ec:
+        ctx.violation("probe: model rebuilt from its reported parameters", "%s(**%s) raises %s" % (cls, kw3, ec), case,
+                      key="rebuilt-raises")
+        return
+    oc = obs_impl(Cm, cls)
+    diff = [k for k in oa if not same_val(oa[k], oc[k], True)]
+    bdiff = behaviour_diff(behave(A), behave(Cm))
+    if diff or bdiff:
+        ctx.violation("probe: model rebuilt from its reported parameters",
+                      "%s (%s): %s(**%s) differs from the model rebuilt from its reported parameters in %s %s" % (
+                          cls, kind, cls, dict(base, **vals), diff, bdiff), case,
+                      key="rebuilt-differs:%s" % ",".join(sorted(diff) or sorted(bdiff)))
+
+
+# --------------------------------------------------------------------------- aliasing (implementation only)
+
+def gen_alias(rng, cls, kind, ll, tt):
+    D = 3 + int(tt) if ll else int(rng.integers(2, 5))
+    lender_cls = CLASSES[int(rng.integers(len(CLASSES)))]
+    cfg = dict(probe="alias", cls=cls, kind=kind, latlon=ll, temporal=tt, D=D, lender=lender_cls,
+               lender_anis=[pos(rng) for _ in range(D - 1)], lender_angles=[float(rng.uniform(0.2, 3)) for _ in range(noa(D))],
+               lender_len=pos(rng), params={})
+    for pname, full in (("anis", D - 1), ("angles", noa(D)), ("len_scale", D)):
+        src = str(rng.choice(["lender", "array-full", "array-short", "array-long", "list"]))
+        n = {"array-full": full, "array-short": max(full - 1, 1), "array-long": full + 1}.get(src, full)
+        vals = [pos(rng) if pname != "angles" else float(rng.uniform(0.2, 3)) for _ in range(max(n, 1))]
+        cfg["params"][pname] = dict(src=src, route=str(rng.choice(["ctor", "setter"])), vals=vals)
+    cfg["extra"] = [str(x) for x in rng.choice(["dim", "len_scale", "anis", "angles", "integral_scale", "nugget"], size=4)]
+    return cfg
+
+
+def run_alias(ctx, cfg):
+    g = gs()
+    cls, kind, ll, tt, D = cfg["cls"], cfg["kind"], cfg["latlon"], cfg["temporal"], cfg["D"]
+    Cls = getattr(g, cls)
+    ctx.count((cls, kind, "alias", tuple(sorted((p, v["src"], v["route"]) for p, v in cfg["params"].items()))), hist=dict(op="alias"))
+    try:
+        L = getattr(g, cfg["lender"])(dim=D, anis=list(cfg["lender_anis"]), angles=list(cfg["lender_angles"]), len_scale=cfg["lender_len"])
+    except Exception:
+        return
+    oL = obs_impl(L, cfg["lender"])
+    held = {}                                                   # caller-held arrays and their original contents
+    given = {}
+    for pname, pc in cfg["params"].items():
+        if pc["src"] == "lender":
+            given[pname] = {"anis": L.anis, "angles": L.angles, "len_scale": L.len_scale_vec}[pname]
+        elif pc["src"] == "list":
+            given[pname] = list(pc["vals"])
+        else:
+            given[pname] = np.array(pc["vals"], dtype=np.double)
+        if isinstance(given[pname], np.ndarray):
+            held[pname] = (given[pname], given[pname].copy())
+    case = json.loads(json.dumps(cfg))
+
+    def check(after):
+        bad = [p for p, (arr, orig) in held.items() if not C.bit_equal(arr, orig)]
+        oL2 = obs_impl(L, cfg["lender"])
+        badL = [k for k in oL if not same_val(oL[k], oL2[k], True)]
+        if bad or badL:
+            ctx.violation("probe: aliasing of parameter arrays (%s)" % after,
+                          "%s (%s, dim %d) built from / assigned arrays %s: after %s the caller's array(s) %s changed %s and the lending %s model changed in %s %s" % (
+                              cls, kind, D, {p: v["src"] + "/" + v["route"] for p, v in cfg["params"].items()}, after, bad,
+                              {p: (held[p][1].tolist(), held[p][0].tolist()) for p in bad}, cfg["lender"], badL,
+                              {k: (np.asarray(oL[k]).tolist(), np.asarray(oL2[k]).tolist()) for k in badL[:3]}),
+                          case, key="aliasing:%s:%s" % (",".join(sorted(bad + badL)), after.split(" ")[0]))
+            return False
+        return True
+    base = dict(latlon=ll, temporal=tt)
+    if not ll:
+        base["dim"] = D
+    try:
+        B = Cls(**base, **{p: given[p] for p, pc in cfg["params"].items() if pc["route"] == "ctor"})
+    except (ValueError, IndexError, ZeroDivisionError):
+        return
+    if not check("constructor"):
+        return
+    try:
+        for p, pc in cfg["params"].items():
+            if pc["route"] == "setter":
+                setattr(B, p, given[p])
+                if not check("setter " + p):
+                    return
+        for x in cfg["extra"]:
+            if x == "dim" and not ll:
+                B.dim = max(1, D - 1)
+                B.dim = D
+            elif x == "len_scale":
+                B.len_scale = given["len_scale"]
+            elif x == "anis":
+                B.anis = given["anis"]
+            elif x == "angles":
+                B.angles = given["angles"]
+            elif x == "integral_scale" and cls in CLOSED_INT:
+                B.integral_scale = given["len_scale"]
+            elif x == "nugget":
+                B.nugget = 0.5
+            behave(B)
+            if not check("operation " + x):
+                return
+    except (ValueError, IndexError, ZeroDivisionError):
+        return
+    # independence: the model must not keep a view of the caller's arrays
+    oB = obs_impl(B, cls)
+    for p, (arr, orig) in held.items():
+        if cfg["params"][p]["src"] == "lender":
+            continue
+        arr *= 1.5
+        oB2 = obs_impl(B, cls)
+        arr[...] = orig
+        badB = [k for k in oB if not same_val(oB[k], oB2[k], True)]
+        if badB:
+            ctx.violation("probe: aliasing of parameter arrays (model keeps a view)",
+                          "%s (%s, dim %d): changing the caller's %s array after it was passed changes the model's %s" % (cls, kind, D, p, badB),
+                          case, key="aliasing:view-of-caller:%s" % p)
+            return
 
 
 # --------------------------------------------------------------------------- boundary sweep (implementation only)
@@ -1048,7 +1447,7 @@ def setup(ctx):
     ]
     ctx.not_proved = [
         "object state after a raising assignment (the code assigns before it checks): a raising assignment ends the history",
-        "integral_scale of the 11 classes that integrate the correlation numerically (scipy quad); integral_scale= in the constructor",
+        "integral_scale of the 11 classes that integrate the correlation numerically (scipy quad) is not modelled in Coq (setter and constructor argument); covered model-free by the constructor-vs-history probe",
         "NaN / infinite parameter values (NaN passes check_arg_in_bounds because every comparison is false): outside the real-valued quantifier space",
         "rescale = 0 (division by zero in len_rescaled)",
         "fit_variogram, hankel_kw / spectrum objects, plotting: not parameter assignments",
@@ -1091,6 +1490,12 @@ def run(ctx):
         if drv is not None:
             tie_broken += witness_probes(ctx, drv)
             boundary_sweep(ctx, quick=(ctx.tier == "quick"))
+            for rep in range(3 if ctx.tier == "quick" else 25):
+                for cls in CLASSES:
+                    for kind, ll, tt in KINDS:
+                        run_cvs(ctx, gen_cvs(rng, cls, kind, ll, tt))
+                        if rep % 2 == 0:
+                            run_alias(ctx, gen_alias(rng, cls, kind, ll, tt))
             per = 3 if ctx.tier == "quick" else 60
             for rep in range(per):
                 for cls in CLASSES:
@@ -1127,6 +1532,12 @@ def replay(ctx, path):
     rec = json.load(open(path))
     print(json.dumps({k: rec[k] for k in ("stage", "what")}, indent=1))
     case = rec.get("case", {})
+    if case.get("probe") == "ctor-vs-setters":
+        run_cvs(ctx, case)
+        return ctx.finish()
+    if case.get("probe") == "alias":
+        run_alias(ctx, case)
+        return ctx.finish()
     if case.get("sweep"):
         boundary_sweep(ctx, only_cls=case["cls"])
         return ctx.finish()
